@@ -153,9 +153,13 @@ class OpsMixin(object):
             Ar, Br = to_real(A), to_real(B)
             if not isinstance(b, SV) and b > 0:
                 # floor(a/b) as a fresh integer with linear bounds (no ToInt term): q*b <= a < (q+1)*b
-                qi = self.E.fresh_int("floor")
-                qr = z3.ToReal(qi.t)
-                self.E.axiom(z3.And(qr * Br.t <= Ar.t, Ar.t < (qr + 1) * Br.t))
+                key = (str(z3.simplify(Ar.t, som=True, sort_sums=True)), str(Br.t))
+                qr = self.E.floor_cache.get(key)     # floor is a function: same arguments, same symbol
+                if qr is None:
+                    qi = self.E.fresh_int("floor")
+                    qr = z3.ToReal(qi.t)
+                    self.E.axiom(z3.And(qr * Br.t <= Ar.t, Ar.t < (qr + 1) * Br.t))
+                    self.E.floor_cache[key] = qr
                 q = qr
             else:
                 q = z3.ToReal(z3.ToInt(Ar.t / Br.t))  # floor
